@@ -190,9 +190,70 @@ def inline_hir(node, new_hir, counter, depth=0):
     return node
 
 
+def inline_local_closures(body, counter):
+    """`let f = |a, b| { .. }; .. f(x, y) ..` -> the call is replaced by the closure body with its parameters bound (HIR only):
+    moving a block of a function into a local closure does not hide it from the rules. Closures that are passed around as values
+    (iterator adaptors) are left alone."""
+    lets = {}
+    for l in _find_all(body, lambda z: z.get("k") == "let" and isinstance(z.get("pat"), dict) and z["pat"].get("k") == "bind" and isinstance(z.get("init"), dict)):
+        init = l["init"]
+        while isinstance(init, dict) and init.get("k") in ("addr", "use", "paren"):
+            init = init.get("e")
+        if isinstance(init, dict) and init.get("k") == "closure":
+            lets[l["pat"]["id"]] = init
+
+    if not lets:
+        return body
+
+    def rw(n, depth=0):
+        if isinstance(n, list):
+            return [rw(v, depth) for v in n]
+        if not isinstance(n, dict):
+            return n
+        n = {k: rw(v, depth) for k, v in n.items()}
+        if n.get("k") == "call" and isinstance(n.get("f"), dict) and n["f"].get("k") == "path" and (n["f"].get("res") or {}).get("dk") == "Local" and n["f"]["res"].get("id") in lets and depth < MAX_DEPTH:
+            cl = lets[n["f"]["res"]["id"]]
+            counter[0] += 1
+            off = counter[0] * ID_STRIDE
+            params = _remap_hir(cl.get("params") or [], off, n.get("ln"))
+            cbody = _remap_hir(cl["body"], off, n.get("ln"))
+            stmts, mapping = [], {}
+            for p, a in zip(params, n.get("args", [])):
+                if isinstance(p, dict) and p.get("k") == "bind" and _place_like(a):
+                    mapping[p["id"]] = a
+                else:
+                    stmts.append({"k": "let", "pat": p, "init": a, "ln": n.get("ln")})
+            if mapping:
+                cbody = _subst(cbody, mapping)
+            return {"k": "block", "stmts": stmts, "expr": cbody, "ln": n.get("ln"), "inlined": "local closure"}
+        return n
+    return rw(body)
+
+
+def _find_all(node, pred):
+    out = []
+    def w(n):
+        if isinstance(n, list):
+            for x in n:
+                w(x)
+        elif isinstance(n, dict):
+            if pred(n):
+                out.append(n)
+            for v in n.values():
+                w(v)
+    w(node)
+    return out
+
+
 def apply(fb):
     """inline the functions that tables/known_functions.json does not list; records what was done in fb.inlined"""
     fb.inlined = []
+    cnt = [5000]
+    for key, h in fb.hir.items():
+        if h.get("crate") in ("biscuit_auth", "biscuit_capi"):
+            nb = inline_local_closures(h["body"], cnt)
+            if nb is not h["body"]:
+                h["body"] = nb
     if not os.path.exists(TABLE):
         return
     with open(TABLE) as fh:
